@@ -593,6 +593,7 @@ func (m *LMod) findFn(role string, arg int) int {
 }
 
 func (m *LMod) finish() {
+	_ = m.Encode() // fixes the type section (type 0 in particular) before anybody imports from this module
 	m.Exports = map[string]*Obj{}
 	for i, o := range m.FObj {
 		m.Exports[fmt.Sprintf("f%d", i)] = o
